@@ -153,10 +153,10 @@ func runC18(c *Ctx) {
 					stored = true
 				}
 			case *ssa.Call:
-				// hash.Set(field, val, opt)
-				for _, a := range x.Common().Args {
+				// hash.Set(field, val, opt): the callee must store that parameter itself
+				for i, a := range x.Common().Args {
 					if strip(a) == ssa.Value(val) {
-						if callee := staticCallee(x.Common()); callee != nil && strings.HasPrefix(fnPkgPath(callee), pkgExSrv) {
+						if callee := staticCallee(x.Common()); callee != nil && strings.HasPrefix(fnPkgPath(callee), pkgExSrv) && storesParamUnchanged(callee, i, 0) {
 							stored = true
 						}
 					}
@@ -435,4 +435,35 @@ func ruleStoreIndexSafety(c *Ctx, rid string) {
 	}
 	sort.Slice(scope, func(i, j int) bool { return c.P.key(scope[i]) < c.P.key(scope[j]) })
 	rulePanicSitesIn(c, rid, scope, "store-index-sites", 3)
+}
+
+// storesParamUnchanged: fn keeps its i-th parameter, as it is, in a field or a map (directly or
+// through another function of the example store).
+func storesParamUnchanged(fn *ssa.Function, i int, depth int) bool {
+	if fn == nil || fn.Blocks == nil || i >= len(fn.Params) || depth > 2 {
+		return false
+	}
+	par := fn.Params[i]
+	found := false
+	allInstrs(fn, func(ins ssa.Instruction) {
+		switch x := ins.(type) {
+		case *ssa.Store:
+			if _, _, _, ok := fieldOf(x.Addr); ok && strip(x.Val) == ssa.Value(par) {
+				found = true
+			}
+		case *ssa.MapUpdate:
+			if strip(x.Value) == ssa.Value(par) {
+				found = true
+			}
+		case *ssa.Call:
+			for k, a := range x.Common().Args {
+				if strip(a) == ssa.Value(par) {
+					if callee := staticCallee(x.Common()); callee != nil && strings.HasPrefix(fnPkgPath(callee), pkgExSrv) && storesParamUnchanged(callee, k, depth+1) {
+						found = true
+					}
+				}
+			}
+		}
+	})
+	return found
 }
